@@ -32,6 +32,7 @@ type PropSpec struct {
 	MinObs      int      `json:"min_obligations,omitempty"` // vacuity guard: fewer obligations is an infrastructure error
 	PanicKinds  bool     `json:"panic_kinds,omitempty"`     // also claim the panic-freedom obligations of the tagged functions
 	OnlyKinds   []string `json:"only_kinds,omitempty"`      // restrict the claimed obligations to these kinds
+	ExtraKinds  []string `json:"extra_kinds,omitempty"`     // panic-freedom kinds claimed although panic_kinds is off (e.g. nil-result)
 }
 
 type Harness struct {
@@ -295,7 +296,15 @@ func propMain(args []string, o RunOpts, tier string) int {
 					continue
 				}
 			} else if !sels[i].sweep && !ps.PanicKinds && panicOnlyKinds[ob.Kind] {
-				continue // panic-freedom of this function is not part of this property's claim
+				extra := false
+				for _, k := range ps.ExtraKinds {
+					if k == ob.Kind {
+						extra = true
+					}
+				}
+				if !extra {
+					continue // panic-freedom of this function is not part of this property's claim
+				}
 			}
 			claimed = append(claimed, ob)
 		}
